@@ -34,6 +34,17 @@ pub fn check_text(st: &mut Stats, text: &str, check_tokens: bool, origin: &str) 
     // ordering handed in through the API whose symbols are NAMED like keywords and aliases, plus
     // a few of the text's own names: the grammar does not depend on what the ordering contains.
     let ordering = |text: &str| -> Option<Vec<rsbdd::NamedSymbol>> {
+        if util::hash_str(text) % 8 == 5 {
+            // a SMALL ordering with gaps between its ids: the first and the last name of the text
+            // (ids 1 and 4), every other name is left to the tokenizer
+            let names: Vec<String> = ref_toks.as_ref().ok()?.iter().filter_map(|t| if let Tok::Var(v) = t { Some(v.clone()) } else { None }).collect();
+            let (first, last) = (names.first()?.clone(), names.last()?.clone());
+            let mut v = vec![rsbdd::NamedSymbol { name: std::rc::Rc::new(first.clone()), id: 1 }];
+            if last != first {
+                v.push(rsbdd::NamedSymbol { name: std::rc::Rc::new(last), id: 4 });
+            }
+            return Some(v);
+        }
         if util::hash_str(text) % 8 != 3 {
             return None;
         }
@@ -61,6 +72,17 @@ pub fn check_text(st: &mut Stats, text: &str, check_tokens: bool, origin: &str) 
                 if &conv != rt {
                     st.violate("c08.tokens", "C08:tokens-differ".into(), format!("text {:?}\n engine tokens:    {:?}\n reference tokens: {:?}", text, conv, rt), case());
                     return;
+                }
+                // one variable per name: different names carry different ids, the same name one id
+                let mut seen: Vec<(String, usize)> = Vec::new();
+                for t in et {
+                    if let rsbdd::parser::SymbolicBDDToken::Var(v) = t {
+                        if let Some((n, i)) = seen.iter().find(|(n, i)| (n == v.name.as_ref()) != (*i == v.id)) {
+                            st.violate("c08.tokens", "C08:names-and-ids-disagree".into(), format!("text {:?}: the names {:?} (id {}) and {:?} (id {}) do not stand for {} variable", text, n, i, v.name, v.id, if n == v.name.as_ref() { "one" } else { "two different" }), case());
+                            return;
+                        }
+                        seen.push((v.name.as_ref().clone(), v.id));
+                    }
                 }
             }
             (Ok(Err(_)), Err(_)) => {}
